@@ -47,3 +47,35 @@ claim('C19', 'other',
       'Abstract interpretation of the four point deserializers over (bit 7 of the first byte) x (caller flag) with everything else unknown: read_exact of the compressed size from the caller\'s reader; flag test depends exactly on bit 7; mismatch -> error before further reads; match -> exact remaining read, copy of exactly the stream bytes into a same-size encoding, CHECKED decoder; all errors reach Err; no panic edge. Serializers write exactly the encoder output with write_all under the right polarity. Fr/Fq12: 1/12 range-checked big-endian coefficients, no unwrap, writer/reader slot order agree. Value round trip is not decided.',
       'Trusted: std::io contracts; checked decoders (C04).',
       'known-bits abstract interpretation with exhaustive flag enumeration; def-use rules', 'DESIGN.md 4.2, 4.11, 5 C19')
+claim('C01', 'other',
+      'Narrow but exact on the exceptional classes: all paths of double, add_assign, add_assign_mixed, eq, negate, both conversions and is_normalized are enumerated for G1 and G2 with coordinates as symbolic monomials: identity short-circuits, the representation-independent equal-point tests (X1 Z2^2 = X2 Z1^2, Y1 Z2^3 = Y2 Z1^3) leading to double(), equality truth table, (x,y,1) and (X/Z^2, Y/Z^3) conversions with inversion only under Z != 0; one filter in all three batch-normalisation passes; default sub_assign(_mixed) = add(negate(copy)). The general-position formulas are polynomial identities over runtime values: not decided.',
+      'Trusted: base-field contracts. Formulas of the generic branch are pinned by the random tests, not by this check.',
+      'path-enumerating abstract interpretation (monomial domain) over MIR', 'DESIGN.md 4.1, 4.6, 5 C01')
+claim('C02', 'other',
+      'Table-driven and affine double-and-add paths are PROVED for all 256-bit scalars by bit-provenance + linear-form abstract interpretation (result = sum_n 2^n b_n P given the table contract; precomp_3 / precomp_256 establish the contracts from arbitrary buffers); recommended windows in 2..=22 on all paths; wNAF buffers emptied first (reuse == fresh), staged API threads one window and the context\'s own buffers, wnaf_form updates the scalar only with full-width operations. wNAF recoding/evaluation arithmetic and projective mul_assign\'s leading-zero skipping are not decided.',
+      'Trusted: group-operation contracts (C01); BitIterator is MSB-first.',
+      'abstract interpretation: bit-provenance vectors + linear forms over scalar bits, if-conversion, counted loops; range and def-use rules', 'DESIGN.md 4.4, 4.10, 5 C02')
+claim('C03', 'other',
+      'Narrow: Miller-loop scenario analysis (0..2 pairs, identities at every position): identity pairs skipped, every other pair consumes exactly its 68 line coefficients in order in step with G2Prepared::from_affine\'s schedule for the bits of |x|>>1, conjugation for negative x; identity short-circuit in from_affine; wiring of pairing / pairing_product / pairing_multi_product / pairing_with; final exponent (C12). That the Miller function and line functions are the ate pairing (bilinearity, non-degeneracy) is numerical: not decided.',
+      'Trusted: line-function and Fq12 contracts; C12.',
+      'abstract interpretation with scenario enumeration; def-use wiring rules; exponent domain', 'DESIGN.md 5 C03')
+claim('C06', 'other',
+      'Composition and constants: hash_to_field::<Base, X>(msg, dst, 2|1) -> map2_to_curve(u0, u1) | map_to_curve(u0) with each element used once; map layer SSWU -> isogeny -> add on the target curve -> clear_h for G1 and G2 (typestate); all constant tables of the pipeline equal the RFC values / satisfy their defining identities; expand/hash_to_field structure (C13). Bit-exact agreement with RFC vectors is not decided.',
+      'Trusted: stage contracts C13, C15, C16, C17.',
+      'def-use wiring, typestate, constant-table conformance', 'DESIGN.md 4.2, 4.5, 5 C06')
+claim('C07', 'other',
+      'Who-may-construct / who-may-call tables over the whole crate + typestate: every site building a point from raw coordinates is in an audited class; coordinate writes confined to the group-law impl; unchecked decoders / get_point_from_x / scale_by_cofactor / transmute / as_tuple_mut have only their audited callers; random() returns scale_by_cofactor (multiplier derived = h) of an on-curve candidate, non-identity; generators on curve with [r]G = O; map outputs through isogeny then clear_h (this rule found F1); deserializers use checked decoders; predicate = is_on_curve && is_zero([r]P). Closure of the arithmetic itself is C01.',
+      'Trusted: group law closed on the subgroup.',
+      'who-may-call / who-may-construct tables over resolved MIR, typestate, exponent domain, constant audit', 'DESIGN.md 4.2, 4.5, 5 C07, 6')
+claim('C10', 'other',
+      'Narrow: window heuristic in 1..=16 with monotone table (all paths); default entry = bucket method with find_pippinger_window(min lengths); every component loop bounded by the minimum length; bucket accumulations only under bucket_index > 0; the table-driven variant proved = sum_j [k_j]P_j for list lengths up to 3 (incl. mismatched) and ALL scalar values; precomp_256 establishes its table contract from any buffer. The bucket method\'s digit extraction / running-sum reduction / inter-window doublings have data-dependent indices and bounds: not decided.',
+      'Trusted: group-operation contracts.',
+      'range/constant rules, def-use loop-bound rule, bit-provenance + linear-form abstract interpretation for bounded lengths', 'DESIGN.md 4.10, 5 C10')
+claim('C11', 'other',
+      'Narrow: same Miller-loop scenario analysis as C03 (identity pairs contribute 1 at any position for 0..2 pairs, per-pair coefficient consumption, shared squarings), product helpers pair p[i] with q[i] and exponentiate once, prepared elements immutable (Freeze, private fields, no &mut API). Product-of-pairings as a value statement is numerical: not decided.',
+      'Trusted: line-function and Fq12 contracts; C12.',
+      'abstract interpretation with scenario enumeration; def-use wiring rules; type facts', 'DESIGN.md 5 C11')
+claim('C20', 'proof',
+      'Effect analysis over all 443 bodies, 23 data types and every item: no mutable/thread-local/interior-mutable global, all types Freeze without raw pointers/locks/atomics, no hand-written unsafe impl, one audited unsafe block + the documented unsafe constructors, no FFI/asm/raw pointers/pointer casts, no resolved call into threads, locks, clocks, environment, I/O devices, OS randomness or hash seeding, RNG only via an explicit parameter, reused wNAF buffers emptied before refill; thorough tier adds 34 compile-pass/compile_fail type witnesses (Send+Sync+Copy, private fields, borrow rules). Conclusion: every operation is a function of its arguments; no data race or deadlock is possible.',
+      'Trusted: soundness of safe Rust; std and the dependency crates (by API).',
+      'effect/purity analysis over MIR + type facts; compile_fail / compile-pass witnesses', 'DESIGN.md 4.9, 5 C20')
